@@ -125,7 +125,9 @@ func Items(t *rapid.T, f *gen.Func, max int, o gen.Opt, label string) []reflect.
 	return out
 }
 
-// selectorFor builds a full-key selector for key k.
+// SelectorFor builds a full-key selector for key k.
+func SelectorFor(f *gen.Func, k []uint64) reflect.Value { return selectorFor(f, k) }
+
 func selectorFor(f *gen.Func, k []uint64) reflect.Value {
 	sel := reflect.New(f.SelectorsType)
 	for i, name := range f.KeyFields {
